@@ -42,6 +42,13 @@ class Abort(BaseException):
     """Unwinds a managed thread at the end of a run."""
 
 
+class Spin(BaseException):
+    """A task performs an unbounded number of accesses without ever suspending."""
+
+
+MAX_LABELS_PER_STEP = 300
+
+
 # --------------------------------------------------------------------------------------
 # result of one run
 # --------------------------------------------------------------------------------------
@@ -256,6 +263,7 @@ def run_producer_op(ctl, fake, op):
         ctl.log(('Ns', bool(op[1])))
     else:
         raise ValueError(op)
+    ctl.log(('Done',))
 
 
 # --------------------------------------------------------------------------------------
@@ -356,6 +364,8 @@ class ThreadCtl:
     def log(self, label):
         if self.cur() is not None:
             self.labels.append(label)
+            if len(self.labels) > MAX_LABELS_PER_STEP:
+                raise Spin()
 
     # ---- called by the controller ----
     def spawn(self, name, fn):
@@ -412,7 +422,7 @@ def _consumer_body(ctl, sc, script, outs):
             else:
                 sc.call('out', 1)
                 ctl.log(('Sent',))
-        except Abort:
+        except (Abort, Spin):
             raise
         except BaseException as e:
             ctl.log(('Raise', exn_name(e)))
@@ -508,6 +518,7 @@ class AsyncCtl:
         self.timer_fired = False
         self.gate = None
         self.active = False
+        self.spin = False
 
     def point(self, desc):
         pass
@@ -515,6 +526,9 @@ class AsyncCtl:
     def log(self, label):
         if self.active:
             self.labels.append(label)
+            if len(self.labels) > MAX_LABELS_PER_STEP:
+                self.spin = True
+                raise Spin()
 
 
 class _AsyncioShim:
@@ -609,7 +623,8 @@ async def _run_async(P, C, sched, extend, max_steps):
                     else:
                         await sc.call('out', 1)
                         ctl.log(('Sent',))
-                except asyncio.CancelledError:
+                except (asyncio.CancelledError, Spin):
+                    ctl.state = 'done'
                     raise
                 except BaseException as e:
                     ctl.log(('Raise', exn_name(e)))
@@ -714,22 +729,51 @@ def close_loop():
 # --------------------------------------------------------------------------------------
 # exploration
 # --------------------------------------------------------------------------------------
-def explore(runner, P, C, limit=None):
+def _task_of(ch):
+    return 0 if ch in (0, 1) else ch        # the timer acts on the consumer
+
+
+def _preemptions(schedule, enabled, upto):
+    """Context switches away from a task that could have continued, in schedule[:upto]."""
+    n = 0
+    for k in range(1, upto):
+        prev, cur = _task_of(schedule[k - 1]), _task_of(schedule[k])
+        if prev != cur and any(_task_of(e) == prev for e in enabled[k]):
+            n += 1
+    return n
+
+
+def explore(runner, P, C, limit=None, max_preempt=None):
     """Stateless depth-first enumeration of every maximal schedule made of enabled choices
-    (the enabled sets are those the controller observes on the real objects)."""
+    (the enabled sets are those the controller observes on the real objects).  With
+    max_preempt=k only schedules with at most k preemptive context switches are visited
+    (a switch is preemptive when the task that ran last could have continued)."""
     todo = [[]]
     n = 0
     while todo:
         prefix = todo.pop()
-        r = runner(P, C, prefix, extend=lambda en: en[0])
+        last = [prefix[-1] if prefix else None]
+
+        def pick(en):
+            # run the current task on while it can move (no new preemption), else the first enabled
+            cands = [e for e in en if last[0] is not None and _task_of(e) == _task_of(last[0])]
+            ch = cands[0] if cands else en[0]
+            last[0] = ch
+            return ch
+        r = runner(P, C, prefix, extend=pick)
         yield r
         n += 1
         if limit is not None and n >= limit:
             return
         for k in range(len(r.schedule) - 1, len(prefix) - 1, -1):
             for alt in reversed(r.enabled[k]):
-                if alt != r.schedule[k]:
-                    todo.append(r.schedule[:k] + [alt])
+                if alt == r.schedule[k]:
+                    continue
+                cand = r.schedule[:k] + [alt]
+                if max_preempt is not None and \
+                        _preemptions(cand, r.enabled[:k + 1], k + 1) > max_preempt:
+                    continue
+                todo.append(cand)
 
 
 def random_walk(runner, P, C, rng, noop_rate=0.0):
